@@ -27,11 +27,12 @@ def token(v):
 
 
 class UNode(NodeMixin):
-    def __init__(self, parent=None, children=None, **kwargs):
+    """a user node class with exactly the constructor protocol the importer documents:
+    nodecls(parent=parent, **attrs) - no `children` parameter"""
+
+    def __init__(self, parent=None, **kwargs):
         self.__dict__.update(kwargs)
         self.parent = parent
-        if children:
-            self.children = children
 
 
 BOOK = ("_NodeMixin__parent", "_NodeMixin__children")
